@@ -3,7 +3,7 @@ import ext_engines
 
 # model .vo files the extraction depends on (relative to coq/)
 MODEL_VO = ['gen/Consts.vo', 'gen/CrcTables.vo', 'model/Bytes.vo', 'model/Codec.vo', 'model/Order.vo', 'model/Crc.vo',
-            'model/Block.vo', 'model/Writer.vo', 'model/WriteLoop.vo', 'spec/Leb128.vo', 'spec/Parse.vo', 'model/Reader.vo', 'spec/TableCheck.vo', 'spec/Encode.vo', 'model/Verify.vo', 'model/Tools.vo', 'model/ToolsMerge.vo', 'model/Compress.vo', 'model/Heap.vo', 'model/Merger.vo', 'model/Sorter.vo', 'model/Fileset.vo', 'model/FilesetPart.vo', 'model/Ledger.vo', 'model/Pool.vo', 'proofs/PoolLife.vo', 'proofs/PoolFairEx.vo', 'model/OpenModel.vo', 'model/Resources.vo']
+            'model/Block.vo', 'model/Writer.vo', 'model/WriteLoop.vo', 'spec/Leb128.vo', 'spec/Parse.vo', 'model/Reader.vo', 'model/IterMem.vo', 'spec/TableCheck.vo', 'spec/Encode.vo', 'model/Verify.vo', 'model/Tools.vo', 'model/ToolsMerge.vo', 'model/Compress.vo', 'model/Heap.vo', 'model/Merger.vo', 'model/Sorter.vo', 'model/Fileset.vo', 'model/FilesetPart.vo', 'model/Ledger.vo', 'model/Pool.vo', 'proofs/PoolLife.vo', 'proofs/PoolFairEx.vo', 'model/OpenModel.vo', 'model/Resources.vo']
 # OCaml modules of the driver, in link order
 OCAML_MODULES = ['common', 'gen', 'enc', 'c16', 'wr', 'c20', 'rd', 'c19', 'c17', 'c12', 'c15', 'mg', 'so', 'fs', 'lk', 'pl', 'main']
 C_VARIANTS_SETUP = ('all', 'tsan')
